@@ -22,6 +22,7 @@ PROPS = {}
 HOOK_COMMITS = ["e220ebea8a1e5de7708b107eff0326913e45a118"]
 
 PROPS["C03"] = dict(
+    exhaustive_parts='every Datum operator form x payload type x the 19 listed timestamp pair classes; every order pattern of up to 4 timestamps over {-1,0,1,2} for the n-ary streams',
     gen=cases.gen_C03,
     accept=cases.accept_latest,
     mask={"time", "cat"},
@@ -34,6 +35,7 @@ PROPS["C03"] = dict(
 )
 
 PROPS["C01"] = dict(
+    exhaustive_parts='49x49 ordered pairs of grid units x every operator/assign/compare form on Quantity and on bare Unit; all 49 named constants; all special-value pairs of the 14 listed f32 bit patterns',
     gen=cases.gen_C01,
     # "with dimension checking enabled": every way of enabling it — debug profile, release profile + dim_check_release, no_std
     configs=[(None, "chk"), ("release:std,chk,devices", "chk"), ("libm,chk,devices", "chk nostd")],
@@ -51,6 +53,7 @@ PROPS["C01"] = dict(
 )
 
 PROPS["C02"] = dict(
+    exhaustive_parts='every assignment of {Err(1),Err(2),None,Some} to the inputs of every combinator (n-ary at arity 1..5; binary 4x4 x {<,=,>}; logic over {E1,E2,N,true,false}); expirer categories x age {<,=,>} limit; powf corner grid 12x12',
     gen=cases.gen_C02,
     accept=cases.accept_latest,
     mask={"cat", "float"},
@@ -103,6 +106,7 @@ PROPS["C18"] = dict(
 )
 
 PROPS["C09"] = dict(
+    exhaustive_parts='breadth-first search over every reachable matching of 2..5 terminals (thorough/deep: 6) x every connect(i,j), i!=j, and disconnect(i)',
     gen=cases.gen_C09,
     oracle=cases.oracle_C09,
     mask={"time", "cat", "unit", "float"},
@@ -115,6 +119,7 @@ PROPS["C09"] = dict(
 )
 
 PROPS["C05"] = dict(
+    exhaustive_parts='every interleaving of {present, absent, Err(1), Err(2), FromNone} up to length 4 (thorough/deep: 5) for each of the 15 stateful stream variants, each also with time standing still across gaps; freeze over all condition histories {Err,None,true,false}^n, n<=4',
     gen=cases.gen_C05,
     oracle=cases.oracle_C05,
     mask={"cat", "time"},
@@ -306,6 +311,7 @@ PROPS["C10"] = dict(
 import extras
 
 PROPS["C16"] = dict(
+    exhaustive_parts='n-ary sum and product at arity 1..8 x all 2^N absent/present patterns; terminal reads for all own/partner presence combinations; Axle::new for 0..8 terminals',
     gen=cases.gen_C16,
     project=cases.project_states,
     extra=extras.c16_extra,
